@@ -32,6 +32,8 @@ impl Inner {
         let counter_handles = self.registry.get_counter_handles();
         for (key, counter) in counter_handles {
             let gen = counter.get_generation();
+            #[cfg(metrics_verif)]
+            metrics::verif::point("prom.render.gen_read");
             if !self.recency.should_store_counter(&key, gen, &self.registry) {
                 continue;
             }
@@ -47,6 +49,8 @@ impl Inner {
         let gauge_handles = self.registry.get_gauge_handles();
         for (key, gauge) in gauge_handles {
             let gen = gauge.get_generation();
+            #[cfg(metrics_verif)]
+            metrics::verif::point("prom.render.gen_read");
             if !self.recency.should_store_gauge(&key, gen, &self.registry) {
                 continue;
             }
